@@ -63,7 +63,9 @@ type H3 struct {
 	Next func(n int) string
 	// Setup, if set, configures a new runtime end before its handshake starts.
 	Setup func(r *RTEnd)
-	Dials int
+	// ConfigureEntered, if set, tells how often the plugin's Configure handler has been entered so far
+	ConfigureEntered func() int
+	Dials            int
 }
 
 func NewH3(e *Env) *H3 {
@@ -180,6 +182,21 @@ func (r *RTEnd) handshake() {
 		r.Close()
 		return
 	case "silent-configure":
+		return
+	case "drop-during-configure":
+		// the connection goes away while the plugin's Configure handler is still running
+		n0 := 0
+		if r.h.ConfigureEntered != nil {
+			n0 = r.h.ConfigureEntered()
+		}
+		go func() {
+			r.h.S.SetGName(fmt.Sprintf("rt%d-configure", r.N))
+			r.PC.Configure(context.Background(), &api.ConfigureRequest{Config: "cfg", RuntimeName: "simrt", RuntimeVersion: "1", RegistrationTimeout: 5000, RequestTimeout: 2000})
+		}()
+		r.h.S.ParkOwned(fmt.Sprintf("rt:%d:configure-entered", r.N), fmt.Sprintf("rt%d", r.N), func() bool {
+			return r.h.ConfigureEntered == nil || r.h.ConfigureEntered() > n0
+		})
+		r.Close()
 		return
 	}
 	ctx := context.Background()
